@@ -257,8 +257,10 @@ def run(ctx: Ctx) -> Result:
                                                          observed=obs, expected=exp, site=f"c08:higher-symmetry:{low}"))
     # the same settings dictionary passed for several tables in a row (a driver looping over files): every call fills
     n_shared = 0
-    for system in [fc.SYSTEMS[(ctx.seed + k) % len(fc.SYSTEMS)] for k in range(3)]:
-        if system == "triclinic": continue
+    # only systems with DEPENDENT components can show a skipped filling (for triclinic/monoclinic/orthorhombic a minimal
+    # sufficient subset is already the whole tensor, so an untouched table is a correct answer)
+    dependent = [s for s in fc.SYSTEMS if len(fc.invariant_basis(s)["nonzero"]) > fc.EXPECTED_DIM[s]]
+    for system in [dependent[(ctx.seed + k) % len(dependent)] for k in range(3)]:
         shared = dict(DEFAULT_SYMMETRY_BLOCK, system=system)
         mins = fc.minimal_sufficient_subsets(system)
         for rep in range(3):
